@@ -481,12 +481,38 @@ type c11HolderTaggedNamed struct {
 	L   C11Label    `mytag:"m1,k=v"`
 }
 
+// a mixin that embeds a configuration-properties struct (whose Prefix() is promoted into the
+// mixin's own method set) next to ordinary tagged fields
+type C11Props struct {
+	A string `yaml:"a"`
+}
+
+func (*C11Props) Prefix() string { return "sect" }
+
+type C11BaseRepo struct {
+	*C11Props
+	W scen.Iface `wire:"prov"`
+	V string     `value:"lit"`
+	M string     `mytag:"m1,k=v"`
+	U string
+}
+type c11HolderPropsMixin struct {
+	C11BaseRepo
+}
+type c11HolderPropsFlat struct {
+	P *C11Props
+	W scen.Iface `wire:"prov"`
+	V string     `value:"lit"`
+	M string     `mytag:"m1,k=v"`
+	U string
+}
+
 func c11Static(c *core.Ctx) {
 	type sc struct {
 		Shape string `json:"shape"`
 	}
 	gen := func(yield func(sc) bool) {
-		for _, s := range []string{"unexported-embed", "exported>unexported", "unexported>exported>unexported", "decoys", "diamond", "two-depths", "tagged-embedded"} {
+		for _, s := range []string{"unexported-embed", "exported>unexported", "unexported>exported>unexported", "decoys", "diamond", "two-depths", "tagged-embedded", "mixin-with-properties"} {
 			if !yield(sc{s}) {
 				return
 			}
@@ -520,6 +546,46 @@ func c11Static(c *core.Ctx) {
 		want := view(&fin, fprov)
 		if !fo.OK() {
 			c.Report(key, "flat-failed", "the flat reference shape did not start: "+scen.FirstLine(fo.Err)+fo.Panic, s)
+			return
+		}
+		if s.Shape == "mixin-with-properties" {
+			start := func(h any) (string, *scen.StartObs) {
+				prov := &c11Prov{"prov"}
+				rec := &c11Rec{}
+				sc := &c11Scan{}
+				sc.Tag, sc.NodeType = "mytag", "custom"
+				o := scen.Start(scen.StartSpec{Ch: envx.Fixed("", nil), Comps: []any{h, prov, rec, sc},
+					Opts: []app.SettingOption{app.SetConfigLoader(loader.NewRawLoader([]byte("sect:\n  a: x\n")))}})
+				var pp *C11Props
+				var w scen.Iface
+				var v, u string
+				switch x := h.(type) {
+				case *c11HolderPropsMixin:
+					pp, w, v, u = x.C11Props, x.W, x.V, x.U
+				case *c11HolderPropsFlat:
+					pp, w, v, u = x.P, x.W, x.V, x.U
+				}
+				a := "<nil>"
+				if pp != nil {
+					a = pp.A
+				}
+				return fmt.Sprintf("props.a=%q wire=%v value=%q untagged=%q custom=%v", a, w == scen.Iface(prov), v, u, rec.seen), o
+			}
+			want, wo := start(&c11HolderPropsFlat{U: "SENTINEL"})
+			got, o := start(&c11HolderPropsMixin{C11BaseRepo{U: "SENTINEL"}})
+			switch {
+			case !wo.OK():
+				c.Report(key, "flat-failed", "the holder with directly declared fields did not start: "+scen.FirstLine(wo.Err)+wo.Panic, s)
+			case !o.OK():
+				c.Outcome(s.Shape + "/failed")
+				c.Report(key, "embedding-changes-outcome", fmt.Sprintf("shape %s: start-up failed: %s%s", s.Shape, scen.FirstLine(o.Err), o.Panic), s)
+			case got != want:
+				c.Outcome(s.Shape + "/differs")
+				c.Report(key, "embedding-changes-value", fmt.Sprintf("a mixin that embeds a configuration-properties struct: its fields end as [%s], declared directly as [%s]", got, want), s)
+			default:
+				c.Outcome(s.Shape + "/as-flat")
+			}
+			c.Sample(map[string]any{"shape": s.Shape, "embedded": got, "flat": want})
 			return
 		}
 		if s.Shape == "tagged-embedded" {
